@@ -3,7 +3,6 @@ import itertools
 
 import numpy as np
 from hypothesis import strategies as st
-from scipy.constants import mu_0
 
 from vp import refop
 from vp.framework import HarnessError, Violation
@@ -28,10 +27,11 @@ RULE = ("A family = (cycle F/V/W, isotropic, triaxial 1:2:3 in any of the "
         "factor rho(n) <= 1.5*rho(16)+0.02 for n >= 16 and <= an absolute "
         "cap per (medium class, nu_pre+nu_post) = 1.5 x the largest factor "
         "measured on the pinned tree; the worst per-cycle factor after the "
-        "first cycle likewise (own caps, <= 1.5*worst(16)+0.03); "
+        "first cycle likewise (own caps, <= 1.6*worst(16)+0.03); "
         "cycles(n) <= cycles(16)+3.  rho is computed from an independently "
-        "evaluated final residual (vp.refop up to 16^3 cells, "
-        "emg3d.solver.residual above), which must be below tol*||s|| and "
+        "evaluated final residual (emg3d.solver.residual on a fresh "
+        "VolumeModel; cross-checked with vp.refop up to 16^3 cells), "
+        "which must be below tol*||s|| and "
         "equal info['abs_error']; ref_error, rel_error, error_at_cycle and "
         "it_mg must be consistent with it.  At 16^3 the solve is repeated "
         "on the same model/source objects with maxit=j (drawn): residual of "
@@ -46,11 +46,12 @@ RULE = ("A family = (cycle F/V/W, isotropic, triaxial 1:2:3 in any of the "
         "whole draw.")
 ASSUMPTIONS = [
     "absolute caps: tables MEASURED / MEASURED_W below = max average / "
-    "worst-per-cycle factor measured on the pinned tree at 16^3, 32^3 and "
-    "non-cubic shapes (see comment at the tables for the number of draws); "
-    "cap = 1.5 x measured",
+    "worst-per-cycle factor measured on the pinned tree at 16^3, 32^3, "
+    "64^3 and the two quick non-cubic shapes (64 + 16 draws per table entry, "
+    "see comment at the tables); cap = 1.5 x measured; the caps are also "
+    "applied to 128^3 and to the other non-cubic shapes of the thorough tier",
     "h-independence threshold 1.5*rho(16)+0.02 (measured rho(32)/rho(16) "
-    "in [0.85, 1.23]); worst per-cycle factor 1.5*worst(16)+0.03",
+    "in [0.85, 1.28]); worst per-cycle factor 1.6*worst(16)+0.03",
     "schedule oracle observes emg3d.solver.smoothing (harness error, not a "
     "violation, if that function is never called during a solve)",
     "restart oracle: a multigrid cycle is a stationary iteration, so a solve "
@@ -59,15 +60,22 @@ ASSUMPTIONS = [
 ]
 SHARDS = {'quick': 1, 'thorough': 16}
 
-# measured max average reduction factor (over cycles, domains, sources)
+# measured max average reduction factor (over cycles, domains, sources,
+# sizes 16^3, 32^3, 64^3 and the two quick non-cubic shapes in all axis
+# orders): max of the round-1 table (216 + 168 draws, nu in 1..3) and of a
+# stratified campaign of 64 draws per (class, nu_pre+nu_post) entry with the
+# present generator (nu 0..3, origins, aspects, tol 1e-8/1e-11), plus 16
+# draws per entry at 64^3.  class 0 = isotropic, cubic cells; class 1 =
+# anisotropic medium or non-cubic cells.
 MEASURED = {
-    0: {2: 0.214, 3: 0.154, 4: 0.109, 5: 0.083, 6: 0.063},
-    1: {2: 0.409, 3: 0.276, 4: 0.186, 5: 0.127, 6: 0.095},
+    0: {2: 0.269, 3: 0.169, 4: 0.117, 5: 0.092, 6: 0.072},
+    1: {2: 0.430, 3: 0.282, 4: 0.186, 5: 0.128, 6: 0.096},
 }
-# measured max of the worst per-cycle factor err[i+1]/err[i], i >= 1
+# measured max of the worst per-cycle factor err[i+1]/err[i], i >= 1 (same
+# campaign)
 MEASURED_W = {
-    0: {2: 1.0, 3: 1.0, 4: 1.0, 5: 1.0, 6: 1.0},
-    1: {2: 1.0, 3: 1.0, 4: 1.0, 5: 1.0, 6: 1.0},
+    0: {2: 0.302, 3: 0.201, 4: 0.153, 5: 0.120, 6: 0.096},
+    1: {2: 0.476, 3: 0.333, 4: 0.228, 5: 0.168, 6: 0.129},
 }
 CAPS = {a: {k: 1.5*v for k, v in d.items()} for a, d in MEASURED.items()}
 CAPS_W = {a: {k: 1.5*v for k, v in d.items()} for a, d in MEASURED_W.items()}
@@ -193,25 +201,35 @@ def _setup(emg3d, spec, shape, h):
 
 
 def _true_residual(emg3d, S, efield):
-    """||s - A e|| without the solver's book-keeping; (norm, floor)."""
+    """||s - A e|| of a field, without the solver's book-keeping.
+
+    Returns (rn, rref, floor): rn from emg3d.solver.residual on a freshly
+    built VolumeModel (the same arithmetic as the solver: comparable to 1e-9
+    relative); up to 16^3 cells also rref from the checker's assembled
+    operator with the rounding floor of DESIGN.md 2.6 (else None, 0)."""
     sf = S['sf']
-    if int(np.prod(S['shape'])) <= 16**3:
-        if S['A'] is None:
-            rx, ry, rz = S['res']
-            A, interior, *_ = refop.assemble(*S['h'], 1/rx, 1/ry, 1/rz,
-                                             None, None, S['sval'])
-            S['A'] = (A, interior, refop.absmat(A))
-        A, interior, absA = S['A']
-        e = np.asarray(efield.field)
-        s0 = np.asarray(sf.field)
-        r = s0 - A @ e
-        r[~interior] = 0
-        floor = C_EPS*float(np.linalg.norm(
-            (absA @ np.abs(e) + np.abs(s0))[interior]))
-        return float(np.linalg.norm(r)), floor, 'refop'
     vm = emg3d.models.VolumeModel(S['model'], sf)
     rn = float(emg3d.solver.residual(vm, sf, efield, True))
-    return rn, 0.0, 'residual'
+    if int(np.prod(S['shape'])) > 16**3:
+        return rn, None, 0.0
+    if S['A'] is None:
+        rx, ry, rz = S['res']
+        A, interior, *_ = refop.assemble(*S['h'], 1/rx, 1/ry, 1/rz,
+                                         None, None, S['sval'])
+        S['A'] = (A, interior, refop.absmat(A))
+    A, interior, absA = S['A']
+    e = np.asarray(efield.field)
+    s0 = np.asarray(sf.field)
+    r = s0 - A @ e
+    r[~interior] = 0
+    floor = C_EPS*float(np.linalg.norm(
+        (absA @ np.abs(e) + np.abs(s0))[interior]))
+    return rn, float(np.linalg.norm(r)), floor
+
+
+def _close(a, b, floor=0.0):
+    return bool(np.isfinite(a) and np.isfinite(b) and
+                abs(a-b) <= 1e-9*abs(b) + 10*floor)
 
 
 def _levels(shape):
@@ -329,8 +347,13 @@ def _run(emg3d, spec, shape, h, fam, extras=False):
     it = int(info['it_mg'])
     ex = int(info['exit'])
     ref = float(np.linalg.norm(S['sf'].field))
-    rn, floor, how = _true_residual(emg3d, S, e)
+    rn, rref, floor = _true_residual(emg3d, S, e)
     ctx = f"{tag}, nu={spec['nu']}, tol={tol:g}"
+    if ex != 0 and not (np.all(np.isfinite(err)) and np.isfinite(rn)):
+        # diverged: reported as failure by the solver; nothing to compare
+        return {'exit': ex, 'it': it, 'msg': str(info['exit_message']),
+                'rho': float('inf'), 'worst': float('inf'),
+                'last': float('inf'), 'first': float('inf'), 'tol': tol}
     # --- the info dict describes the returned field -------------------------
     if abs(float(info['ref_error']) - ref) > 1e-12*ref:
         raise Violation(f"info_ref_error:{fam}",
@@ -341,11 +364,12 @@ def _run(emg3d, spec, shape, h, fam, extras=False):
                         f"{ctx}: it_mg={it}, maxit={maxit}, "
                         f"{len(err)} entries in error_at_cycle")
     ae = float(info['abs_error'])
-    if not np.isfinite(rn) or abs(ae-rn) > 1e-9*rn + 10*floor:
+    if not _close(ae, rn) or (rref is not None and
+                              not _close(rref, rn, floor)):
         raise Violation(f"info_abs_error:{fam}",
                         f"{ctx}: abs_error {ae:.6e} but ||s-Ae|| of the "
-                        f"returned field = {rn:.6e} ({how}, floor "
-                        f"{floor:.1e})")
+                        f"returned field = {rn:.6e} (emg3d.solver.residual)"
+                        f", {rref} (vp.refop, floor {floor:.1e})")
     if (abs(err[0]-ref) > 1e-12*ref or abs(err[-1]-ae) > 1e-12*ae or
             abs(float(info['rel_error'])*ref - ae) > 1e-12*ae):
         raise Violation(f"info_error_at_cycle:{fam}",
@@ -353,10 +377,10 @@ def _run(emg3d, spec, shape, h, fam, extras=False):
                         f"{ref!r}), error_at_cycle[-1]={err[-1]!r}, "
                         f"rel_error={info['rel_error']!r} "
                         f"(abs_error={ae!r})")
-    if ex == 0 and rn >= tol*ref*(1+1e-9) + floor:
+    if ex == 0 and rn >= tol*ref*(1+1e-9):
         raise Violation(f"converged_above_tol:{fam}",
                         f"{ctx}: CONVERGED after {it} cycles, but ||s-Ae||/"
-                        f"||s|| = {rn/ref:.3e} ({how})")
+                        f"||s|| = {rn/ref:.3e}")
     q = err[1:]/err[:-1]
     out = {'exit': ex, 'it': it, 'msg': str(info['exit_message']),
            'rho': float((rn/ref)**(1.0/it)),
@@ -370,19 +394,21 @@ def _run(emg3d, spec, shape, h, fam, extras=False):
     work = _check_schedule(calls, infoj, shape, spec['cycle'],
                            (0, spec['nu'][0], 1, spec['nu'][1]),
                            f"maxit={j}")
-    rj, floorj, _ = _true_residual(emg3d, S, ej)
-    if int(infoj['it_mg']) != j or abs(rj-err[j]) > 1e-9*err[j] + 10*floorj:
+    rj, rjref, floorj = _true_residual(emg3d, S, ej)
+    if (int(infoj['it_mg']) != j or not _close(rj, err[j]) or
+            not _close(rjref, rj, floorj)):
         raise Violation(f"prefix_history:{fam}",
                         f"{ctx}: same objects solved again with maxit={j}: "
-                        f"it_mg={infoj['it_mg']}, ||s-Ae||={rj:.6e}; "
+                        f"it_mg={infoj['it_mg']}, ||s-Ae||={rj:.6e} "
+                        f"(vp.refop: {rjref:.6e}); "
                         f"error_at_cycle[{j}] of the full solve {err[j]:.6e}")
     info2 = _solve(emg3d, spec, S, tol, maxit, efield=ej)[1]
     err2 = np.asarray(info2['error_at_cycle'], float)
-    r2, floor2, _ = _true_residual(emg3d, S, ej)
+    r2 = _true_residual(emg3d, S, ej)[0]
     ok = (int(info2['exit']) == 0 and int(info2['it_mg']) == it-j and
           len(err2) == it-j+1 and
-          np.all(np.abs(err2[1:]-err[j+1:]) <= 1e-9*err[j+1:] + 10*floor2)
-          and abs(r2-rn) <= 1e-9*rn + 10*floor2)
+          all(_close(a, b) for a, b in zip(err2[1:], err[j+1:]))
+          and _close(r2, rn))
     if not ok:
         raise Violation(f"restart_history:{fam}",
                         f"{ctx}: continued from the field after {j} of {it} "
@@ -465,7 +491,7 @@ def case_family(spec, rec):
         if n >= 16 and it > it16 + 3:
             raise Violation(f"cycles_grow_with_refinement:{fam}",
                             f"{it} cycles at n={n}, {it16} at 16")
-        if n >= 16 and (w > capw or w > 1.5*w16 + 0.03):
+        if n >= 16 and (w > capw or w > 1.6*w16 + 0.03):
             raise Violation(f"worst_cycle_factor:{fam}",
                             f"largest per-cycle factor after the first cycle "
                             f"at n={n}: {w:.3f} (average {rho:.3f}); at 16: "
@@ -576,10 +602,12 @@ def run(ctx):
     if ctx.quick:
         ctx.explore('visits', visits_strategy(), case_visits, ctx.n(40, 40),
                     shrink=False)
-        # every medium in every run: 6 media x 2 families
+        # every medium in every run: 6 media x 2 families (isotropic: 3,
+        # it also carries the cell-aspect dimension)
         for k, med in enumerate(['iso'] + list(MEDIA)):
             ctx.explore('family', spec_strategy(False, medium=med),
-                        case_family, ctx.n(2, 2), shrink=False, salt=k)
+                        case_family, ctx.n(3 if med == 'iso' else 2, 2),
+                        shrink=False, salt=k)
         ctx.explore('family64', spec_strategy(True), case_family,
                     ctx.n(2, 2), shrink=False)
     else:
